@@ -194,10 +194,10 @@ theorem gpair_node_text (hR : RelOK W R) (c : RCtx) (line : Nat) (s : Bytes) (hs
   unfold renderNode
   exact gpair_wrapFailAt _ _ (gpair_bind hR (gpair_write hR s hs) (fun _ => gpair_quiet hR (quiet_pure _)))
 
-theorem gpair_node_raw (hR : RelOK W R) (c : RCtx) (sl : List Bytes) (hs : ∀ b ∈ sl, W b) :
+theorem gpair_node_raw (hR : RelOK W R) (c : RCtx) (sl : List Bytes) (h0 : W []) (hs : ∀ b ∈ sl, W b) :
     GPair R (renderNode c (.raw sl)) (renderNode c (.raw sl)) := by
   unfold renderNode
-  exact gpair_wrapFailAt _ _ (gpair_bind hR (gpair_writeAll hR sl hs) (fun _ => gpair_quiet hR (quiet_pure _)))
+  exact gpair_wrapFailAt _ _ (gpair_bind hR (gpair_writeAll hR h0 sl hs) (fun _ => gpair_quiet hR (quiet_pure _)))
 
 theorem gpair_node_obj (hR : RelOK W R) (c : RCtx) (hx : CtxChunks W c) (line : Nat) (e : Expr) :
     GPair R (renderNode c (.obj line e)) (renderNode c (.obj line e)) := by
@@ -207,7 +207,7 @@ theorem gpair_node_obj (hR : RelOK W R) (c : RCtx) (hx : CtxChunks W c) (line : 
   split
   · exact gpair_quiet hR (quiet_fail _)
   · exact gpair_ofRes_bind hR _ _ _ (fun cs hcs =>
-      gpair_bind hR (gpair_writeAll hR cs (hx.obj v cs hcs)) (fun _ => gpair_quiet hR (quiet_pure _)))
+      gpair_bind hR (gpair_writeAll hR hx.emp cs (hx.obj v cs hcs)) (fun _ => gpair_quiet hR (quiet_pure _)))
 
 theorem gpair_node_assign (hR : RelOK W R) (c : RCtx) (line : Nat) (x : Bytes) (e : Expr) :
     GPair R (renderNode c (.assign line x e)) (renderNode c (.assign line x e)) := by
@@ -336,7 +336,7 @@ theorem strip_node : ∀ n : Node, (∀ b, n ≠ .trim b) → capTrimFreeNode n 
   | .obj l e, _, _, _ => by
     rw [stripNode]; exact gpair_node_obj (hypRel_ok V) c hx l e
   | .raw sl, _, _, hl => by
-    rw [stripNode]; exact gpair_node_raw (hypRel_ok V) c sl (fun b hb => hl b (by simpa [litNode] using hb))
+    rw [stripNode]; exact gpair_node_raw (hypRel_ok V) c sl hx.emp (fun b hb => hl b (by simpa [litNode] using hb))
   | .trim b, hnt, _, _ => absurd rfl (hnt b)
   | .assign l x e, _, _, _ => by
     rw [stripNode]; exact gpair_node_assign (hypRel_ok V) c l x e
@@ -589,4 +589,4 @@ theorem eraseTrims_idem (ops : List WOp) : eraseTrims (eraseTrims ops) = eraseTr
   simp [eraseTrims, List.filter_filter]
 
 /-- every chunk allowed: the calculus then speaks about the operations only -/
-theorem ctxChunks_true (c : RCtx) : CtxChunks (fun _ => True) c := ⟨fun _ _ _ _ _ => trivial, fun _ _ _ _ _ => trivial, fun _ _ => trivial⟩
+theorem ctxChunks_true (c : RCtx) : CtxChunks (fun _ => True) c := ⟨trivial, fun _ _ _ _ _ => trivial, fun _ _ _ _ _ => trivial, fun _ _ => trivial⟩
